@@ -13,7 +13,7 @@
    Print Assumptions in Properties_C17.v and named in the trusted base).  Nothing else in C17 does. *)
 From Coq Require Import List ZArith Reals Lia Lra.
 From Flocq Require Import Core BinarySingleNaN.
-From Muduo Require Import C17_Model C17_Units.
+From Muduo Require Import C17_Model C17_Units C17_G12.
 Local Open Scope Z_scope.
 
 Lemma Rcompare_half (r den : Z) : 0 < den ->
@@ -323,3 +323,68 @@ Lemma printf_fixed_spec :
      exists k body, render (Gen_C17.RFix p d u) n = body ++ u /\ fixed_numeral body p k /\
        k = ZnearestE (x * IZR (10 ^ p)) /\ dec_fix p x = F2R (Float radix10 k (- p))).
 Proof. exact (conj fixed_scaled_is_round render_is_ieee_printf). Qed.
+
+(* ---- snprintf("%.12g"): the twelve digits are the correctly rounded decimal ------------------ *)
+
+Lemma ge_pow10_R N D X : 0 < N -> 0 < D ->
+  (ge_pow10 N D X = true <-> (bpow radix10 X <= IZR N / IZR D)%R).
+Proof.
+  intros HN HD. assert (RD : (0 < IZR D)%R) by (apply IZR_lt; exact HD).
+  unfold ge_pow10. destruct (Z.leb_spec 0 X) as [H|H].
+  - rewrite Z.leb_le. rewrite <- pow10_bpow by exact H. split; intros L.
+    + apply (Rmult_le_reg_r (IZR D)); [exact RD|]. unfold Rdiv. rewrite Rmult_assoc, Rinv_l, Rmult_1_r by lra.
+      rewrite <- mult_IZR. apply IZR_le. lia.
+    + apply (Rmult_le_compat_r (IZR D)) in L; [|lra]. unfold Rdiv in L. rewrite Rmult_assoc, Rinv_l, Rmult_1_r in L by lra.
+      rewrite <- mult_IZR in L. apply le_IZR in L. lia.
+  - rewrite Z.leb_le. replace X with (- (- X)) at 2 by lia. rewrite bpow_opp, <- pow10_bpow by lia.
+    assert (P : 0 < 10 ^ (- X)) by (apply Z.pow_pos_nonneg; lia).
+    assert (RP : (0 < IZR (10 ^ (- X)))%R) by (apply IZR_lt; exact P).
+    split; intros L.
+    + apply (Rmult_le_reg_r (IZR D * IZR (10 ^ (- X)))); [apply Rmult_lt_0_compat; lra|].
+      replace (/ IZR (10 ^ (- X)) * (IZR D * IZR (10 ^ (- X))))%R with (IZR D) by (field; lra).
+      replace (IZR N / IZR D * (IZR D * IZR (10 ^ (- X))))%R with (IZR N * IZR (10 ^ (- X)))%R by (field; lra).
+      rewrite <- mult_IZR. apply IZR_le. exact L.
+    + apply (Rmult_le_compat_r (IZR D * IZR (10 ^ (- X)))) in L; [|apply Rlt_le, Rmult_lt_0_compat; lra].
+      replace (/ IZR (10 ^ (- X)) * (IZR D * IZR (10 ^ (- X))))%R with (IZR D) in L by (field; lra).
+      replace (IZR N / IZR D * (IZR D * IZR (10 ^ (- X))))%R with (IZR N * IZR (10 ^ (- X)))%R in L by (field; lra).
+      rewrite <- mult_IZR in L. apply le_IZR in L. exact L.
+Qed.
+
+(* x rounded to 12 significant decimal digits, nearest, ties to even *)
+Definition dec_sig12 (x : R) : R := round radix10 (FLX_exp 12) ZnearestE x.
+
+Theorem round12_is_round N D : in_range N D ->
+  F2R (Float radix10 (fst (round12 N D)) (snd (round12 N D) - 11)) = dec_sig12 (IZR N / IZR D).
+Proof.
+  intros R. pose proof (dec_exp_spec N D R) as S. destruct R as [HN [HD _]].
+  apply dec_exp_ok_elim in S. destruct S as [_ [G1 G2]].
+  assert (RD : (0 < IZR D)%R) by (apply IZR_lt; exact HD).
+  assert (RN : (0 < IZR N)%R) by (apply IZR_lt; exact HN).
+  set (x := (IZR N / IZR D)%R).
+  assert (Xpos : (0 < x)%R) by (unfold x; apply Rdiv_lt_0_compat; lra).
+  unfold round12. set (X := dec_exp N D) in *.
+  apply (ge_pow10_R N D X HN HD) in G1. fold x in G1.
+  assert (G2' : (x < bpow radix10 (X + 1))%R).
+  { destruct (Rlt_le_dec x (bpow radix10 (X + 1))) as [|C]; [assumption|exfalso].
+    apply (ge_pow10_R N D (X + 1) HN HD) in C. congruence. }
+  assert (Hmag : mag radix10 x = X + 1 :> Z).
+  { apply mag_unique. rewrite Rabs_pos_eq by lra. replace (X + 1 - 1) with X by lia. split; assumption. }
+  set (k0 := if 0 <=? 11 - X then rne (N * 10 ^ (11 - X)) D else rne N (D * 10 ^ (- (11 - X)))).
+  assert (E0 : dec_sig12 x = F2R (Float radix10 k0 (X - 11))).
+  { unfold dec_sig12, round, cexp, scaled_mantissa, cexp. rewrite Hmag.
+    replace (FLX_exp 12 (X + 1)) with (X - 11) by (unfold FLX_exp; lia).
+    f_equal. f_equal. unfold k0, x.
+    destruct (Z.leb_spec 0 (11 - X)) as [Hs|Hs].
+    - rewrite <- (ZnearestE_rne _ _ HD). f_equal.
+      rewrite mult_IZR, pow10_bpow by lia. replace (- (X - 11)) with (11 - X) by lia. field. lra.
+    - assert (P : 0 < 10 ^ (- (11 - X))) by (apply Z.pow_pos_nonneg; lia).
+      assert (HD' : 0 < D * 10 ^ (- (11 - X))) by (apply Z.mul_pos_pos; lia).
+      rewrite <- (ZnearestE_rne _ _ HD'). f_equal.
+      rewrite mult_IZR, pow10_bpow by lia. replace (- (11 - X)) with (X - 11) by lia.
+      rewrite (bpow_opp radix10 (X - 11)). pose proof (bpow_gt_0 radix10 (X - 11)). field. lra. }
+  rewrite E0. fold k0.
+  destruct (Z.eqb_spec k0 (10 ^ 12)) as [E|E]; cbn [fst snd]; [|reflexivity].
+  rewrite E. unfold F2R. cbn [Fnum Fexp].
+  replace (X + 1 - 11) with (1 + (X - 11)) by lia. rewrite bpow_plus.
+  change (bpow radix10 1) with 10%R. change (10 ^ 12) with (10 * 10 ^ 11). rewrite mult_IZR. ring.
+Qed.
